@@ -79,9 +79,20 @@ BIG_TABLES = {
 }
 
 
+import zlib as _zlib  # noqa: E402
+
+# payloads that look like compressed streams although they are stored in a
+# "raw" dataset (first byte 0x78, a complete zlib stream, the gzip magic)
+MAGIC_PAYLOADS = [b"x", b"x\x9c", _zlib.compress(b"not what was stored"),
+                  b"\x1f\x8b\x08\x00", b"\x78\x01\x00", b"xyz",
+                  _zlib.compress(b""), b"\x78\xda\x03\x00\x00\x00\x00\x01"]
+
+
 def payload(i):
     """distinct payloads, lengths 0..5, chunk 2 is empty ("big" mode:
     lengths around the 4096-byte read size of the write buffers)"""
+    if PAYLOAD_MODE[0] == "magic":
+        return MAGIC_PAYLOADS[i % len(MAGIC_PAYLOADS)] + bytes([i % 256])
     if PAYLOAD_MODE[0] in BIG_TABLES:
         tab = BIG_TABLES[PAYLOAD_MODE[0]]
         n = tab[i % len(tab)]
@@ -293,7 +304,7 @@ def check_closed(cfg, d, stored, chunks, order, vio, pkg=True, spec=True,
 def run_history(cfg, order, vio, pkg=True, spec=True):
     """replay one store order on a fresh writer, close, check.
     returns (dir digest or None)"""
-    if cfg.get("payloads") in BIG_TABLES \
+    if (cfg.get("payloads") in BIG_TABLES or cfg.get("payloads") == "magic") \
             and PAYLOAD_MODE[0] != cfg["payloads"]:
         PAYLOAD_MODE[0] = cfg["payloads"]
         try:
